@@ -298,7 +298,7 @@ def theorem_names(prop_file):
 def print_assumptions(modname, names, wd):
     """Returns {theorem: assumptions text} by running Print Assumptions in a fresh coqc."""
     if not names:
-        return {}
+        return {}, ""
     text = f"Require Import Xdis.{modname}.\n" + "".join(
         f'Goal True. idtac "@@BEGIN {n}". Abort.\nPrint Assumptions {n}.\n' for n in names
     )
